@@ -26,7 +26,11 @@ Inductive hop : Type :=
 | HClone
 | HIntoVec
 | HIntoIter (k : nat)
-| HDrop.
+| HDrop
+(** the same operation, but the [k]-th element destructor that runs during the step panics
+    (only generated around removals and [clear], whose destructor paths - std's
+    [drop_in_place] on a slice, [Drain]'s and [DrainCol]'s drop guards - finish the work) *)
+| HBomb (k : nat) (o : hop).
 
 Record hconf : Type := mkConf {
   cf_dbg : bool;      (* debug assertions / overflow checks on *)
@@ -69,9 +73,16 @@ Definition of_drainres (h : hstate) (r : res (drainres elt)) : res (hstate * hob
 Fixpoint fresh_seq (start : N) (n : nat) : list N :=
   match n with 0 => [] | S n' => start :: fresh_seq (start + 1)%N n' end.
 
-Definition hstep (cf : hconf) (h : hstate) (o : hop) : res (hstate * hobs) :=
+Fixpoint hstep (cf : hconf) (h : hstate) (o : hop) {struct o} : res (hstate * hobs) :=
   let t := h_td h in
   match o with
+  | HBomb k o' =>
+      r <- hstep cf h o' ;;
+      let '(h', ob) := r in
+      if negb (cf_track cf) then Ok r else   (* a Copy type has no destructor to panic *)
+      Ok (h', mkObs (ob_ok ob && (length (ob_dropped ob) <=? k))
+                    (if ob_ok ob && (length (ob_dropped ob) <=? k) then ob_out ob else [])
+                    (ob_dropped ob) (ob_leaked ob))
   | HFromVec c r d =>
       (* toodee.rs from_vec *)
       if negb (zero_rule_ok c r) then Ok (h, mkObs false [] d [])
@@ -224,8 +235,7 @@ Definition p_dstep : parser drain_step :=
 Definition p_dend : parser drain_end :=
   x <~ p_N ;; if (x =? 0)%N then p_ret DropIt else p_ret ForgetIt.
 
-Definition p_hop : parser hop :=
-  code <~ p_nat ;;
+Definition p_hop0 (code : nat) : parser hop :=
   match code with
   | 0 => c <~ p_N ;; r <~ p_N ;; d <~ p_list p_N ;; p_ret (HFromVec c r d)
   | 1 => c <~ p_N ;; r <~ p_N ;; p_ret (HNew c r)
@@ -250,6 +260,11 @@ Definition p_hop : parser hop :=
   | 20 => p_ret HDrop
   | _ => p_fail
   end.
+
+Definition p_hop : parser hop :=
+  code <~ p_nat ;;
+  if code =? 21 then k <~ p_nat ;; c2 <~ p_nat ;; o <~ p_hop0 c2 ;; p_ret (HBomb k o)
+  else p_hop0 code.
 
 Definition p_conf : parser hconf :=
   dbg <~ p_bool ;; esz <~ p_N ;; spare <~ p_nat ;; track <~ p_bool ;;
